@@ -521,6 +521,8 @@ class Interp:
             return Tup(tuple(self.select(c, x, y) for x, y in zip(a.fields, b.fields)))
         if isinstance(a, Arr) and isinstance(b, Arr) and len(a.elems) == len(b.elems):
             return Arr(tuple(self.select(c, x, y) for x, y in zip(a.elems, b.elems)))
+        if isinstance(a, Closure) and isinstance(b, Closure) and a.path == b.path and len(a.captures) == len(b.captures):
+            return Closure(a.path, tuple(self.select(c, x, y) for x, y in zip(a.captures, b.captures)), a.subst)
         if isinstance(a, Enum) and isinstance(b, Enum) and a.path == b.path:
             alts = {}
             order = []
@@ -577,6 +579,10 @@ class Interp:
             return SeqPush(self.subst_value(v.seq, mapping), self.subst_value(v.val, mapping))
         if isinstance(v, SeqLit):
             return SeqLit(tuple(self.subst_value(x, mapping) for x in v.elems))
+        if isinstance(v, Closure):
+            return Closure(v.path, tuple(self.subst_value(x, mapping) for x in v.captures), v.subst)
+        if isinstance(v, Stream):
+            return Stream(v.kind, tuple(self.subst_value(x, mapping) if not isinstance(x, str) else x for x in v.parts))
         return v
 
     def _subst_path(self, path, mapping):
@@ -1025,13 +1031,35 @@ class Interp:
             if op in ('sub', 'sub_unchecked'):
                 return self.isub(a, b)
             if op in ('mul', 'mul_unchecked'):
+                if a[0] == 'ic' and b[0] == 'ic':
+                    return iconst(a[1] * b[1])
+                if a == iconst(1):
+                    return b
+                if b == iconst(1):
+                    return a
+                if a == iconst(0) or b == iconst(0):
+                    return iconst(0)
                 return ('i*', a, b)
             if op in ('add_overflow', 'sub_overflow', 'mul_overflow'):
                 base = op.split('_')[0]
                 val = self.binop(base, a, b, opty)
+                if a[0] == 'ic' and b[0] == 'ic':
+                    # both operands are literals: the check is decided here
+                    bits = {'usize': 64, 'isize': 64, 'u64': 64, 'i64': 64, 'u32': 32, 'i32': 32, 'u16': 16, 'i16': 16, 'u8': 8, 'i8': 8,
+                            'u128': 128, 'i128': 128}.get(opty.get('name'))
+                    if bits is not None:
+                        exact = {'add': a[1] + b[1], 'sub': a[1] - b[1], 'mul': a[1] * b[1]}[base]
+                        lo, hi = (-(1 << (bits - 1)), (1 << (bits - 1)) - 1) if opty['k'] == 'int' else (0, (1 << bits) - 1)
+                        return Tup((val, FALSE if lo <= exact <= hi else TRUE))
                 return Tup((val, ('ovf', base, a, b, opty['name'])))
             if op in ('lt', 'le', 'gt', 'ge', 'eq', 'ne'):
                 return mk_icmp(op, a, b)
+            if op in ('div', 'rem') and a[0] == 'ic' and b[0] == 'ic' and b[1] > 0 and a[1] >= 0:
+                return iconst(a[1] // b[1] if op == 'div' else a[1] % b[1])
+            if op == 'div':
+                return ('idiv', a, b)
+            if op in ('shl', 'shr', 'shl_unchecked', 'shr_unchecked') and a[0] == 'ic' and b[0] == 'ic' and 0 <= b[1] < 64:
+                return iconst(a[1] << b[1] if op.startswith('shl') else a[1] >> b[1])
             raise Unsupported('integer binop %s' % op)
         if k == 'bool':
             if op == 'eq':
@@ -1624,8 +1652,10 @@ class Interp:
                 self._cl_track = [frame, None]
                 try:
                     outs = self.run_blocks(frame, header, blocks, state.copy(), as_loop_body=True)
-                except Unsupported:
+                except Unsupported as e_:
                     outs = None
+                    if os.environ.get('VERIF_DEBUG_LOOP'):
+                        sys.stderr.write('concrete iteration %d of %s bb%s: %s at %s\n' % (_k, frame.f['path'], header, e_, e_.where))
                 first_forked = self._cl_track[1]
                 if outs is None:
                     break
@@ -1757,6 +1787,9 @@ class Interp:
         summ.back_states = list(outs.get(header, []))
         summ.exit_states = {t: list(ss) for t, ss in exits.items()}
         closed = self.close_build_loop(frame, summ)
+        if closed is None:
+            from . import models as _models
+            closed = _models.close_build_loop_generic(self, frame, summ)
         if closed is None:
             from . import models as _models
             closed = _models.close_fold_loop(self, frame, summ)
